@@ -68,6 +68,16 @@ def gen(seed, tier, which):
             out.append({'kind': 'srv_req', 'class': 'srv_req', 'method': 'POST', 'version': 'HTTP/1.1', 'ctype': rnd.choice(TEXT if text else WEB[:2]), 'accept': 'none', 'text': text,
                         'chunks_req': cut(rnd, wire), 'chunks_resp': [], 'trailers': [{'n': 'grpc-status', 'nb': list(b'grpc-status'), 'v': [48]}], 'inner_status': 200,
                         'payload': list(payload), 'wellformed': well})
+        # base64 text made of several independently padded segments (one per flushed frame, as every grpc-web encoder
+        # including tonic-web's own produces them), cut anywhere - also inside and right after the padding
+        for _ in range(n // 2):
+            parts = [frame(0, bytes(rnd.randrange(256) for _ in range(rnd.choice([0, 1, 2, 3, 4, 7, 30])))) for _ in range(rnd.randint(2, 4))]
+            payload = b''.join(parts)
+            wire = b''.join(base64.b64encode(p_) for p_ in parts)
+            mode = rnd.choice(['one', 'small', 'rand', 'rand'])
+            out.append({'kind': 'srv_req', 'class': 'srv_req_segments', 'method': 'POST', 'version': 'HTTP/1.1', 'ctype': rnd.choice(TEXT), 'accept': 'none', 'text': True,
+                        'chunks_req': cut(rnd, wire, mode), 'chunks_resp': [], 'trailers': [{'n': 'grpc-status', 'nb': list(b'grpc-status'), 'v': [48]}], 'inner_status': 200,
+                        'payload': list(payload), 'wellformed': True})
         fb = frame(0, b'hello')
         for m in ['GET', 'POST', 'OPTIONS', 'PUT']:
             for v in ['HTTP/1.0', 'HTTP/1.1', 'HTTP/2.0', 'HTTP/3.0']:
